@@ -12,7 +12,7 @@ Record gobs := mkG {
   g_next : list N;           (* GetNextBlockValidators *)
   g_newepoch : list N;       (* ComputeNextBlockValidators *)
   g_blocked : list N;        (* accounts of the universe for which Policy.isBlocked answers true, ascending *)
-  g_policy : list Z;         (* FeePerByte, BaseExecFee (pico), StoragePrice (pico) *)
+  g_policy : list Z;         (* FeePerByte, BaseExecFee (pico), StoragePrice (pico), getGasPerBlock, getRegisterPrice, stored gas records *)
   g_whitelist : list (N * Z);(* cached whitelisted fees (Policy.getWhitelistFeeContracts): (deployer account, fee), ascending *)
   g_roles : list (N * Z * list N);   (* RoleManagement.getDesignatedByRole(role, index) = keys, for the queried (role, index) *)
   g_contracts : list (N * (Z * Z))   (* Management.getContract of the storage contract of account a: (id, update counter) *)
@@ -27,9 +27,12 @@ Definition zlist_eqb := list_eqb Z.eqb.
 
 Definition model_obs (cfg : config) (st : state) : gobs :=
   mkG (committee_sorted st) (next_validators cfg st) (compute_next_validators cfg st) (c_blocked (A st))
-      [aget 0 10%N (p_cache (A st));
+      ([aget 0 10%N (p_cache (A st));
        (if hf_faun cfg then aget 0 18%N (p_cache (A st)) else aget 0 18%N (p_cache (A st)) * 10000);
-       aget 0 19%N (p_cache (A st)) * 10000]
+       aget 0 19%N (p_cache (A st)) * 10000;
+       gas_per_block st (height (A st) + 1);     (* NEO.getGasPerBlock in an invocation on top of the block *)
+       c_regprice (A st)]
+       ++ flat_map (fun '(i, v) => [i; v]) (rev (s_gpb (A st))))  (* the stored gas-per-block records, ascending *)
       (flat_map (fun a => match whitelisted_fee st a with Some f => [(a, f)] | None => [] end)
                 (map N.of_nat (seq 0 32)))
       [] (* role queries are answered per query, see roles_agree *)
